@@ -83,7 +83,6 @@ func dumpTerm(w *World, spec string) {
 	fmt.Println(hoistAll(t).Pretty())
 }
 
-func thorough(ps *propSpec, r *Run, repo string, extra map[string]any) {}
 
 func dumpMapRanges(w *World) {
 	var paths []string
